@@ -273,6 +273,10 @@ class Context:
 
         # Constructor function - new Object() creates empty object
         def object_constructor(*args):
+            # Object(x) is x itself for anything but undefined and null (there are
+            # no wrapper objects: a primitive stays a primitive)
+            if args and args[0] is not UNDEFINED and args[0] is not NULL:
+                return args[0]
             obj = JSObject()
             obj._prototype = object_prototype
             return obj
@@ -740,7 +744,7 @@ class Context:
         if error_name != "Error" and "Error" in self._globals:
             error_prototype = JSObject(self._globals["Error"].get("prototype"))
         else:
-            error_prototype = JSObject()
+            error_prototype = JSObject(getattr(self, "_object_prototype", None))
         error_prototype.set("name", error_name)
         error_prototype.set("message", "")
 
